@@ -70,6 +70,18 @@ CHECKS = {
         technique='SMT translation validation of emitted JavaScript in update mode (symbolic update trees), node replay',
         design='§4 C06',
     ),
+    'C11': dict(
+        engine='J', category='translation_validation',
+        text='Per path site, for ALL data, indices and conditions: the emitted l-value path expression (model: 4th argument of the property setter, '
+             'wx:for: 4th argument of F, script references: last argument of R.v / R.p) is evaluated symbolically to a key sequence and z3 decides that it '
+             'equals the key sequence of the access chain of the model expression (through wx:for items by the runtime contract item path = list path ++ '
+             '[index], through ?: as ite, dynamic keys as terms); non-assignable expressions (arithmetic, literals, calls, indices, items of non-path lists) '
+             'must carry no path.  Equality of key sequences is get-put; a sat verdict is confirmed in node by writing a sentinel at the emitted path.',
+        note='Trusted: jssym interpreter, the runtime contract for item paths, prefix conventions (0 = data, 2,<path>,<module> = script). Bounded '
+             'family: chains <= 3, nested loops <= 2, one-level conditionals.',
+        technique='SMT translation validation of emitted JavaScript (symbolic path evaluation), node get-put replay',
+        design='§4 C11',
+    ),
     'C08': dict(
         engine='M', category='other',
         text='Routine-level bounded check of token conservation and meaningful whitespace: the MIR of convert_class_names_and_rpx_in_block, '
